@@ -17,7 +17,7 @@ CODES = {1: "malformed record", 201: "children of a sum node do not have the doc
          230: "SP node: a recorded reduction is not genuine at its position", 231: "SP node without child but lines remain",
          232: "SP node: child line maps to nothing", 233: "SP node: child lines out of range or repeated", 234: "SP node: child is not what the reductions leave",
          235: "SP node: child matrix is not the recorded submatrix", 236: "SP node with more than one child",
-         240: "stored graph does not reproduce the node's matrix", 241: "stored cograph does not reproduce the transpose", 242: "stored violator minor has |det| < 2",
+         240: "stored graph does not reproduce the node's matrix", 241: "stored cograph does not reproduce the transpose", 242: "stored violator minor has |det| < 2", 243: "stored violator minor is not a square in-range duplicate-free submatrix of the node's matrix",
          244: "node typed R10 does not represent R10", 245: "regularity flag positive but matrix is not regular/TU", 246: "regularity flag negative but matrix is regular/TU",
          247: "irregular node is regular/TU", 248: "graphicness flag positive but not graphic", 249: "graphicness flag negative but graphic",
          250: "cographicness flag positive but not cographic", 251: "cographicness flag negative but cographic", 252: "graph/planar node is not graphic",
